@@ -55,4 +55,21 @@ def ratApprox (q : Rat) : String :=
   let f : Float := Float.ofInt q.num / Float.ofNat q.den
   toString f
 
+
+/-- Main loop of a per-property model driver: reads "<case> => <impl output>" lines from stdin,
+prints one verdict line per case. -/
+partial def runLoop (h out : IO.FS.Stream) (f : List String → List String → Verdict) : IO Unit := do
+  let line ← h.getLine
+  if line.isEmpty then return ()
+  let toks := words line
+  if toks.isEmpty then runLoop h out f
+  else
+    let (case, impl) := Retro.splitAt "=>" toks
+    out.putStrLn (f case impl).render
+    runLoop h out f
+
+def runMain (f : List String → List String → Verdict) : IO UInt32 := do
+  runLoop (← IO.getStdin) (← IO.getStdout) f
+  return 0
+
 end Retro.Drv
